@@ -56,6 +56,24 @@ CHECKS = {
         "Programs of up to 40 public editing calls with random arguments run on generated documents (some loaded from reference-writer files); after every step the state is compared with a snapshot taken before the call under the operation's write set and with the edit model (page list, page content, Count invariant, resources in effect).",
         "Trusted: model readers over the abstract document; delete/set aim at non-page-tree objects.",
     ),
+    "C15": (
+        "exploration", "DESIGN.md §4 C15",
+        "runtime monitor: mapping-table reference model (last definition wins, range offset on the last UTF-16 unit, array index) vs Document::decode_text through get_font_encoding on rendered CMaps",
+        "Random mapping tables with touching, overlapping and overriding definitions are rendered to CMap text with random sectioning/spelling and decoded by the real pipeline; every mapped code is decoded on its own so a failure names the code and the definition context.",
+        "Trusted: the table model and renderer. Targets are kept well-formed UTF-16; code sets prefix-free.",
+    ),
+    "C16": (
+        "exploration", "DESIGN.md §4 C16",
+        "runtime monitor: exhaustive sweep of all Unicode scalar values through text_string/decode_text_string, exhaustive 5 x 256 table sweep against published tables, extraction oracle on generated pages",
+        "All 1,112,064 scalar values and random strings round-trip through text_string/decode_text_string with the representation rule checked; each reachable one-byte encoding is swept over all 256 bytes and compared with tables generated from Python's codecs / Annex D; generated pages showing encoded text are extracted before and after save+load.",
+        "Trusted: Python cp1252/mac_roman codecs and Annex D for the published cells; cells where sources differ accept either value.",
+    ),
+    "C18": (
+        "exploration", "DESIGN.md §4 C18",
+        "runtime monitor: independent civil-date arithmetic as reference for Object::from(date) strings and for instants/offsets read back by every backend; exhaustive offset sweep incl. chrono Local via TZ on fresh threads",
+        "Every offset -23:59..+23:59 is enumerated for each offset-carrying backend at fixed instants, instants are sampled over years 0001..9999; each produced string must equal the reference and be read back by chrono, jiff and time to the same instant/offset; the specification's short forms are parsed by every backend.",
+        "Trusted: civil-date reference (self-tested by a full calendar walk over years 1..9999). Instants stay two days inside jiff's Timestamp range.",
+    ),
     "C17": (
         "exploration", "DESIGN.md §4 C17",
         "runtime monitor: bookmark-forest model vs the objects created by build_outline (link-consistency walker) and vs get_toc() before and after save+load",
